@@ -287,5 +287,25 @@ fn main() {
         |h, st| h.tape_search("c07.vs_run", cases, 200, st, |tape, st| vs_run_prop(&model, &ix, tape, st)),
         |case| replay_tape(case, |tape, st| vs_run_prop(&model, &ix, tape, st)),
     );
+    h.check(
+        "c07.fuzz_replay",
+        "seed inputs of the fz_stream campaign and saved fuzzer findings under the C07 oracle (decoded schedule and Pending script vs single-byte reads)",
+        true,
+        |_h, st| {
+            for seed in fixture::fuzzing::STREAM_SEEDS {
+                st.eval();
+                if let Err(msg) = vcore::runner::guarded(|| fixture::fuzzing::stream_case_for(seed, false, true).map(|_| ())) {
+                    return Some(vcore::runner::Failure {
+                        message: msg,
+                        case: json!({ "hex": vcore::runner::hex(seed) }),
+                    });
+                }
+                st.nontrivial(seed);
+            }
+            None
+        },
+        |case| fixture::fuzzing::stream_case_for(&vcore::runner::unhex(case["hex"].as_str().unwrap_or("")), false, true).map(|_| ()),
+    );
+    fixture::fuzzing::campaign_part(&mut h, "C07", "c07.fuzz_campaign");
     h.finish();
 }
